@@ -280,6 +280,18 @@ def dispatch(ctx, fi, R):
     ctx.ob('DISPATCH/branch', fi, got.get(r) or loop, r in got, '%s has a branch' % r if r in got else 'no branch handles %s' % r, construct='event_type == %s' % r)
   ok = bool(last_else) and any(isinstance(x, ast.Raise) for x in last_else)
   ctx.ob('DISPATCH/else-raises', fi, loop, ok, 'an unknown event type raises' if ok else 'the dispatch has no raising else: unknown ranks are silently ignored', construct='else: raise')
+  # the final loop does not depend on the dispatch: judged before the branch rules (which give up when a branch is missing)
+  tail = [n for n in fn.body if isinstance(n, ast.For) and ('%s.values()' % ACT) in norm_text(n.iter)]
+  ok = len(tail) == 1 and any(isinstance(x.targets[0], ast.Attribute) and x.targets[0].attr == 'end_time' and norm_text(x.value) == T
+                              for x in ast.walk(tail[0]) if isinstance(x, ast.Assign)) if tail else False
+  # positively identified: the final loop over the active lists stores another value than the last event time into end_time
+  other = [x for x in ast.walk(tail[0]) if isinstance(x, ast.Assign) and isinstance(x.targets[0], ast.Attribute) and x.targets[0].attr == 'end_time' and norm_text(x.value) != T] if len(tail) == 1 else []
+  if not other:
+    tl2 = [n for n in fn.body if isinstance(n, ast.For) and ACT in norm_text(n.iter)]
+    other = [x for n in tl2 for x in ast.walk(n) if isinstance(x, ast.Assign) and isinstance(x.targets[0], ast.Attribute) and x.targets[0].attr == 'end_time' and norm_text(x.value) != T] if not ok else []
+  ctx.ob('BRANCH/leftovers', fi, other[0] if other else (tail[0] if tail else fn), ok, 'notes still held at the end are closed at the last event time' if ok else
+         ('notes still held at the end are closed at %s, not at the time of the last note/pedal event of the piece' % norm_text(other[0].value) if other else
+          'notes still held at the end are not closed at the last event time'), construct='for active notes: end_time = time', definite=bool(other))
   if len(got) < 4:
     return
   b = got['_SUSTAIN_ON'].body
@@ -300,6 +312,19 @@ def dispatch(ctx, fi, R):
          'the release branch is not "end < time -> end = time, else keep active"', construct='if note.end_time < time: note.end_time = time else keep')
   reassign = any(isinstance(x, ast.Assign) and norm_text(x.targets[0]) == '%s[%s.instrument]' % (ACT, EV) and isinstance(x.value, ast.Name) for x in b)
   ctx.ob('BRANCH/off-drops-extended', fi, got['_SUSTAIN_OFF'], reassign, 'extended notes leave the active list' if reassign else 'extended notes are not removed from the active list at release')
+  # positively identified: the release branch throws the instrument's whole active list away (empty list / pop / clear / del),
+  # so a note that is still sounding is forgotten and cannot be held by a later press
+  wipes = []
+  for x in ast.walk(ast.Module(body=got['_SUSTAIN_OFF'].body, type_ignores=[])):
+    if isinstance(x, ast.Assign) and norm_text(x.targets[0]).startswith(ACT + '[') and isinstance(x.value, (ast.List, ast.Tuple)) and not x.value.elts:
+      wipes.append(x)
+    if isinstance(x, ast.Call) and isinstance(x.func, ast.Attribute) and x.func.attr in ('pop', 'clear') and norm_text(x.func.value).startswith(ACT):
+      wipes.append(x)
+    if isinstance(x, ast.Delete) and any(norm_text(t).startswith(ACT + '[') for t in x.targets):
+      wipes.append(x)
+  if wipes:
+    ctx.ob('BRANCH/off-keeps-sounding', fi, wipes[0], False, 'the release branch discards the whole active list of the instrument (%s): a note that is still sounding is no longer '
+           'tracked and is not held by the next press' % norm_text(wipes[0])[:70], construct='release keeps the notes that are still sounding', definite=True)
   b = got['_NOTE_ON'].body
   g = b[0] if b and isinstance(b[0], ast.If) else None
   ok = g is not None and norm_text(g.test) == '%s[%s.instrument]' % (SUS, EV)
@@ -320,11 +345,6 @@ def dispatch(ctx, fi, R):
       any('%s[%s.instrument].remove(%s)' % (ACT, EV, EV) in norm_text(x) for x in ast.walk(ast.Module(body=g.orelse, type_ignores=[])) if isinstance(x, ast.Expr))
   ctx.ob('BRANCH/note-off', fi, g or got['_NOTE_OFF'], ok, 'a note end removes the note from the active list only while the pedal is up' if ok else
          'note-off handling is not "pedal down -> keep; pedal up -> remove from active"', construct='NOTE_OFF: keep if pedal down else remove')
-  tail = [n for n in fn.body if isinstance(n, ast.For) and ('%s.values()' % ACT) in norm_text(n.iter)]
-  ok = len(tail) == 1 and any(isinstance(x.targets[0], ast.Attribute) and x.targets[0].attr == 'end_time' and norm_text(x.value) == T
-                              for x in ast.walk(tail[0]) if isinstance(x, ast.Assign)) if tail else False
-  ctx.ob('BRANCH/leftovers', fi, tail[0] if tail else fn, ok, 'notes still held at the end are closed at the last event time' if ok else
-         'notes still held at the end are not closed at the last event time', construct='for active notes: end_time = time')
   ret = fn.body[-1]
   ok = isinstance(ret, ast.Return) and norm_text(ret.value) == SEQ
   cp = [s for s in fn.body if isinstance(s, ast.Assign) and norm_text(s.targets[0]) == SEQ and isinstance(s.value, ast.Call) and dotted(s.value.func) == 'copy.deepcopy']
